@@ -756,12 +756,8 @@ func (ns *normState) findTarget(pk *packages.Package, e ast.Expr, callees map[*t
 		}
 		if sel, isSel := x.Fun.(*ast.SelectorExpr); isSel && !simpleOperand(sel.X) {
 			// the receiver expression is evaluated before anything else of this call
-			if t := ns.findTarget(pk, sel.X, callees, false); t != nil {
-				if tc, isC := sel.X.(*ast.CallExpr); isC && tc == t {
-					return t
-				}
-			}
-			return nil
+			// (whatever findTarget accepts inside the receiver is evaluated before the rest of this call)
+			return ns.findTarget(pk, sel.X, callees, false)
 		}
 		if !simpleOperand(x.Fun) {
 			return nil
@@ -959,7 +955,9 @@ func (ns *normState) inlineInBlock(pk *packages.Package, file *ast.File, body *a
 				if ce, ok := x.Rhs[0].(*ast.CallExpr); ok {
 					if c := ns.calleeOf(pk, ce, callees); c != nil && numResults(c) == len(x.Lhs) && (x.Tok == token.DEFINE || x.Tok == token.ASSIGN) {
 						for _, l := range x.Lhs {
-							if x.Tok == token.ASSIGN && !simpleOperand(l) {
+							// index operands of the left side are evaluated before the call: they must be
+							// plain (identifiers / literals), which the callee cannot change
+							if x.Tok == token.ASSIGN && !simpleOperand(l) && !plainIndexed(l) {
 								return
 							}
 						}
@@ -1232,8 +1230,9 @@ func firstEvaluated(e ast.Expr, t *ast.CallExpr) bool {
 				return true
 			}
 			sel, ok := x.Fun.(*ast.SelectorExpr)
-			if !ok {
-				return false
+			if !ok || plainOperand(x.Fun) {
+				// pkg.F(t, …) / f(t, …): t is first if it is the first argument or follows plain ones
+				return plainBefore(x, t)
 			}
 			e = sel.X
 		case *ast.SelectorExpr:
@@ -1426,4 +1425,10 @@ func (ns *normState) tryAssignCheck(pk *packages.Package, file *ast.File, st, ne
 	}
 	emit(s, b.String(), need)
 	return true
+}
+
+// plainIndexed: x[i] or x.f[i] with plain x and i.
+func plainIndexed(e ast.Expr) bool {
+	ix, ok := e.(*ast.IndexExpr)
+	return ok && plainOperand(ix.X) && plainOperand(ix.Index)
 }
